@@ -193,7 +193,21 @@ pub fn panic_signature(p: &PanicInfo) -> String {
     let mut msg = String::new();
     let mut in_quote = false;
     let mut depth = 0i32;
-    for c in p.message.chars().take(300) {
+    for c in p.message.chars().take(400) {
+        if depth > 0 {
+            // inside a bracketed payload: drop everything, track nesting only
+            match c {
+                '{' | '(' | '[' => depth += 1,
+                '}' | ')' | ']' => {
+                    depth -= 1;
+                    if depth == 0 {
+                        msg.push(c);
+                    }
+                }
+                _ => {}
+            }
+            continue;
+        }
         match c {
             '"' => {
                 in_quote = !in_quote;
@@ -203,21 +217,9 @@ pub fn panic_signature(p: &PanicInfo) -> String {
             }
             _ if in_quote => {}
             '{' | '(' | '[' => {
-                depth += 1;
-                if depth == 1 {
-                    msg.push(c);
-                }
+                depth = 1;
+                msg.push(c);
             }
-            '}' | ')' | ']' => {
-                depth -= 1;
-                if depth == 0 {
-                    msg.push(c);
-                }
-                if depth < 0 {
-                    depth = 0;
-                }
-            }
-            _ if depth > 0 => {}
             c if c.is_ascii_digit() => {
                 if !msg.ends_with('#') {
                     msg.push('#');
